@@ -45,7 +45,11 @@ def main(argv):
         rm = T(a["rm"]).clone() if a["stats"] else None
         rv = T(a["rv"]).clone() if a["stats"] else None
         training = a["training"] or not a["stats"]
-        return TF.batch_norm(xs[0], rm, rv, w, b, training, a["momentum"], a["eps"])
+        x = xs[0]
+        off = nnops._bn_offset(a, tuple(x.shape), a.get("_dtype", "float64"))      # the same far-from-zero data the reference sees
+        if off is not None:
+            x = x + torch.tensor(off, dtype=x.dtype)
+        return TF.batch_norm(x, rm, rv, w, b, training, a["momentum"], a["eps"])
 
     def loss_torch(name):
         def f(xs, a):
@@ -143,6 +147,8 @@ def main(argv):
             a = c["args"]
             if ok is not None and not ok(a):
                 return
+            if isinstance(a.get("dim"), dict) and not a["dim"]["tuple"]:
+                return      # dim=(): torch reduces over every dim, NumPy (and synapgrad) over none - not a comparable case
             arrs = ops.arrays(c)
             want = op.ref(arrs, a)
             tx = [T(x).requires_grad_(True) for x in arrs]
@@ -168,13 +174,15 @@ def main(argv):
                 def f(arrs2):
                     return np.asarray(op.ref(arrs2, a), dtype=np.float64)
                 try:
-                    fdg = fd.fd_vjp(f, arrs, gup, which)
+                    sc = float(c.get("scale", 1.0))          # (as in gradcheck: the step follows the case's magnitude)
+                    fdg = fd.fd_vjp(f, arrs, gup, which, hscale=max(sc, op.fd_hscale(a)) if op.fd_hscale is not None else sc)
                 except Exception:  # noqa: BLE001
                     return
                 cnt["fd"] += 1
                 for i, gr in zip(which, grads):
                     gr = np.zeros(arrs[i].shape) if gr is None else gr.numpy()
-                    okk, err, scale = fd.close(fdg[i], gr, np.float64, f64_tol=1e-5)
+                    floor = 1.0 if 1e-3 < sc < 1e3 else min(1.0, float(np.abs(gr).max()) or 1.0)
+                    okk, err, scale = fd.close(fdg[i], gr, np.float64, f64_tol=1e-5, floor=floor)
                     if not okk:
                         problems.append(f"FD-ORACLE {op.name}: finite differences vs torch.autograd differ by {err:.2e} args={a}")
                         return
